@@ -255,6 +255,11 @@ func runC15(c *Ctx) []Violation {
 						v.Finding = "xml-checksum-ignores-attributes-of-text-elements"
 						v.What = "xml: two records that differ only in an attribute of a text-only element have the same checksum"
 					}
+					// ... and an element whose child elements all have one name as the array of their values
+					if w.Format == "xml" && w.Tag("xml.array-like-attribute") == fmt.Sprint(fi) && a.RawJSON == b.RawJSON && c.FindingOpen("xml-checksum-ignores-attributes-of-array-like-elements") {
+						v.Finding = "xml-checksum-ignores-attributes-of-array-like-elements"
+						v.What = "xml: two records that differ only in an attribute of an element whose children all have one name have the same checksum"
+					}
 					return []Violation{v}
 				}
 				if i != pos && a.Checksum != b.Checksum {
